@@ -84,6 +84,23 @@ def run(rep):
                                   {'class': c, 'value': v, 'emitted': a[1], 'model': bm})
                 else:
                     rep.violation('%s(%s): implementation %s, model lib_check %s' % (c, v, a[0], bm), {'correspondence': 'impl<->lib_check', 'class': c, 'value': v}, found_input=False)
+    # what a real element carrying the value serialises must be the text judged above (str(value): Model/SimpleType.render)
+    n_ser = 0
+    ser_bad = {}
+    for (c, v), a in zip(pairs, impl):
+        if a[0] != 'ok' or len(a) < 4 or a[2] is None:
+            continue
+        if a[3] and '@' in a[3] and any(ch in a[1] for ch in '\t\n\r'):
+            continue                # attribute values are white-space normalised by every XML parser
+        if any((ord(ch) < 32 and ch not in '\t\n\r') or 0xD800 <= ord(ch) <= 0xDFFF or ord(ch) in (0xFFFE, 0xFFFF) for ch in a[1]) or '\r' in a[1]:
+            continue                # not XML characters (or CR, which parsers normalise): outside every property's quantification
+        n_ser += 1
+        if a[2] != a[1]:
+            ser_bad.setdefault(c, []).append((v, a[1], a[2], a[3]))
+    for c, l in sorted(ser_bad.items())[:6]:
+        v, want, got, car = l[0]
+        rep.violation('%s accepts %s; %s serialises it as %r, not as %r' % (c, v, car, got, want), {'class': c, 'value': v, 'carrier': car, 'serialised': got, 'str': want, 'more': [x[0] for x in l[1:6]]})
+    rep.coverage['values_serialised_through_an_element'] = n_ser
     unsound = {}
     for (i, c, v), ok in zip(acc, xv):
         if ok != '1':
